@@ -257,8 +257,8 @@ def _t_class_preread(c):
     return False
 
 
-BUILTIN_HELPERS = ("type", "setattr", "hasattr", "iter", "next", "tuple", "list", "slice", "globals",
-                   "locals", "__import__", "classmethod", "__class__")
+# since fix 224d939 the generated code reaches builtins through the builtins module; only the cell spelling is left
+BUILTIN_HELPERS = ("__class__",)
 
 
 @trigger("binds_builtin_used_by_helpers")
